@@ -1,7 +1,7 @@
 ------------------------------ MODULE GlmLinAlg ------------------------------
 (***************************************************************************)
 (* Definitional semantics of the GLM linear-algebra functions around the   *)
-(* inverse (property C10), over the exact rationals of LinQ:               *)
+(* inverse (property C10), in exact arithmetic:                            *)
 (*   determinant (Leibniz sum over permutations, and the Laplace MDet of   *)
 (*   LinQ -- MC_C10 checks that both agree), inverse (adjugate / det),     *)
 (*   inverseTranspose, affineInverse (block formula), operator/ between    *)
@@ -9,11 +9,41 @@
 (*   flipud / fliplr, the gtx/matrix_query predicates (three-valued: the   *)
 (*   documented comparison with a guard band around the threshold), and    *)
 (*   the QR / RQ factorisations as postconditions.                         *)
-(* No floating point here: observed floats enter as exact dyadic           *)
-(* rationals (LinQ!QW) and tolerances are explicit rationals.              *)
-(* A matrix is LinQ's [c, r, e] (column-major, MAt(m, col, row) 1-based).  *)
+(* Two layers with the same definitions:                                   *)
+(*   LA*  on LinQ's rational matrices [c, r, e] (column-major,             *)
+(*        MAt(m, col, row) 1-based) -- any dyadic input, tolerances are    *)
+(*        explicit rationals; observed floats enter through LinQ!QW        *)
+(*   LI*  on tuples of TLC's native integers -- the small-integer          *)
+(*        (unimodular) inputs of the property, where everything is exact   *)
+(* No floating point anywhere.                                             *)
 (***************************************************************************)
 EXTENDS LinQ, FiniteSets, SequencesExt
+
+\* ---------------------------------------------------------------- strict binding and materialisation
+\* TLC binds operator parameters and LET definitions by name (an argument expression is evaluated again at
+\* every use inside the body -- measured: MScale(MAdj(m), QInv(MDet(m))) computes the determinant once per
+\* entry) and represents [k \in S |-> body] as a closure whose body runs at every application.  Variables
+\* bound by a quantifier or a set constructor are bound to VALUES.  LALet1/2/3 are "let v = x in F(v)" written
+\* with such a binder, and LAForceSeq / LAForce turn a closure into an explicit tuple (concatenation with
+\* the empty sequence enumerates its argument once).  Semantically all of these are identities.
+LALet1(x, F(_)) == CHOOSE y \in {F(v) : v \in {x}} : TRUE
+LALet2(x1, x2, F(_, _)) == CHOOSE y \in {F(v[1], v[2]) : v \in {<<x1, x2>>}} : TRUE
+LALet3(x1, x2, x3, F(_, _, _)) == CHOOSE y \in {F(v[1], v[2], v[3]) : v \in {<<x1, x2, x3>>}} : TRUE
+LAForceSeq(t) == t \o << >>
+LAForce(m) == [c |-> m.c, r |-> m.r, e |-> m.e \o << >>]
+
+\* ---------------------------------------------------------------- strict versions of the LinQ operations used below
+LAMul(a, b) == LALet2(a, b, LAMBDA x, y : LAForce(MMul(x, y)))
+LAMulVec(a, v) == LALet2(a, v, LAMBDA x, y : LAForceSeq(MVec(x, y)))
+LAVecMul(v, a) == LALet2(v, a, LAMBDA x, y : LAForceSeq(VMat(x, y)))
+LATranspose(m) == LALet1(m, LAMBDA x : LAForce(MTranspose(x)))
+LASub(a, b) == LALet2(a, b, LAMBDA x, y : LAForce(MSub(x, y)))
+LAScale(a, s) == LALet2(a, s, LAMBDA x, y : LAForce(MScale(x, y)))
+LAAbs(m) == LALet1(m, LAMBDA x : Mat(x.c, x.r, LAForceSeq([i \in 1..Len(x.e) |-> QAbs(x.e[i])])))
+LAMaxAbs(m) == LALet1(m, LAMBDA x : QMaxAbs(x.e))
+LANormInf(m) == LALet1(m, LAMBDA x : MNormInf(x))
+LAMatEq(a, b) == \A v \in {<<a, b>>} : MEq(v[1], v[2])
+LAVecEq(a, b) == \A v \in {<<a, b>>} : Len(v[1]) = Len(v[2]) /\ \A i \in 1..Len(v[1]) : QEq(v[1][i], v[2][i])
 
 \* ---------------------------------------------------------------- dyadic scaling
 \* Observed floats are p / 2^j.  Sums of rationals with different denominators multiply the
@@ -23,16 +53,16 @@ EXTENDS LinQ, FiniteSets, SequencesExt
 LAQExp(q) == NBitLen(q.q) - 1                                   \* q.q = 2^LAQExp(q)  (dyadic q only)
 LAIsDyadic(q) == q.q = NShl(<<1>>, LAQExp(q))
 LAMaxOf(S) == CHOOSE x \in S : \A y \in S : y <= x
-LASeqExp(s) == LAMaxOf({LAQExp(s[i]) : i \in 1..Len(s)} \cup {0})
+LASeqExp(s) == LALet1(s, LAMBDA t : LAMaxOf({LAQExp(t[i]) : i \in 1..Len(t)} \cup {0}))
 LAQUp(q, k) == QMk(ZMk(q.p.neg, NShl(q.p.m, k - LAQExp(q))), <<1>>)          \* q * 2^k, an integer (k >= LAQExp(q))
 LAQMul2k(q, k) == IF k >= 0 THEN QMk(ZMk(q.p.neg, NShl(q.p.m, k)), q.q) ELSE QMk(q.p, NShl(q.q, -k))   \* q * 2^k
-LASeqUp(s, k) == [i \in 1..Len(s) |-> LAQUp(s[i], k)]
-LAMatUp(m, k) == Mat(m.c, m.r, LASeqUp(m.e, k))
-LAMatMul2k(m, k) == Mat(m.c, m.r, [i \in 1..Len(m.e) |-> LAQMul2k(m.e[i], k)])
+LASeqUp(s, k) == LALet2(s, k, LAMBDA t, j : LAForceSeq([i \in 1..Len(t) |-> LAQUp(t[i], j)]))
+LASeqMul2k(s, k) == LALet2(s, k, LAMBDA t, j : LAForceSeq([i \in 1..Len(t) |-> LAQMul2k(t[i], j)]))
+LAMatUp(m, k) == LALet1(m, LAMBDA x : Mat(x.c, x.r, LASeqUp(x.e, k)))
+LAMatMul2k(m, k) == LALet1(m, LAMBDA x : Mat(x.c, x.r, LASeqMul2k(x.e, k)))
 \* product of two dyadic matrices through the integer images (all entries of the result share one denominator)
-LAMMulD(a, b) == LET ka == LASeqExp(a.e) kb == LASeqExp(b.e) IN LAMatMul2k(MMul(LAMatUp(a, ka), LAMatUp(b, kb)), -(ka + kb))
-LAMVecD(a, v) == LET ka == LASeqExp(a.e) kv == LASeqExp(v) p == MVec(LAMatUp(a, ka), LASeqUp(v, kv))
-                 IN [i \in 1..Len(p) |-> LAQMul2k(p[i], -(ka + kv))]
+LAMMulD(a, b) == LALet2(a, b, LAMBDA x, y : LALet2(LASeqExp(x.e), LASeqExp(y.e), LAMBDA ka, kb :
+                     LAMatMul2k(LAMul(LAMatUp(x, ka), LAMatUp(y, kb)), -(ka + kb))))
 
 \* ---------------------------------------------------------------- determinant
 \* Leibniz: sum over the permutations p of sign(p) * prod_i m[i][p(i)]
@@ -40,89 +70,121 @@ LAPerms(n) == {p \in [1..n -> 1..n] : \A i, j \in 1..n : i # j => p[i] # p[j]}
 LAPermSign(p, n) == IF Cardinality({ij \in (1..n) \X (1..n) : ij[1] < ij[2] /\ p[ij[1]] > p[ij[2]]}) % 2 = 0 THEN 1 ELSE -1
 RECURSIVE LAProdFrom(_, _)
 LAProdFrom(s, i) == IF i > Len(s) THEN QOne ELSE QMul(s[i], LAProdFrom(s, i + 1))
-LAProd(s) == LAProdFrom(s, 1)
-\* constant tables (TLC evaluates constant-level definitions once): the permutations of 1..n as a sequence, and their signs
-LAPermTable == [n \in 1..4 |-> SetToSeq(LAPerms(n))]
-LASignTable == [n \in 1..4 |-> [k \in 1..Len(LAPermTable[n]) |-> LAPermSign(LAPermTable[n][k], n)]]
+LAProd(s) == LALet1(LAForceSeq(s), LAMBDA t : LAProdFrom(t, 1))
+\* constant tables: the permutations of 1..n as a sequence, their signs, and LASkip[n][j] = 1..n without j (ascending)
+\* (literal tuples: TLC keeps a constant [n \in S |-> ...] as an unevaluated closure and recomputes it at every application;
+\* MC_C10 checks the literals against LAPerms / LAPermSign)
+LAPermTable ==
+    << <<<<1>>>>,
+       <<<<1, 2>>, <<2, 1>>>>,
+       <<<<1, 2, 3>>, <<1, 3, 2>>, <<2, 1, 3>>, <<2, 3, 1>>, <<3, 1, 2>>, <<3, 2, 1>>>>,
+       <<<<1, 2, 3, 4>>, <<1, 2, 4, 3>>, <<1, 3, 2, 4>>, <<1, 3, 4, 2>>, <<1, 4, 2, 3>>, <<1, 4, 3, 2>>, <<2, 1, 3, 4>>, <<2, 1, 4, 3>>, <<2, 3, 1, 4>>, <<2, 3, 4, 1>>, <<2, 4, 1, 3>>, <<2, 4, 3, 1>>, <<3, 1, 2, 4>>, <<3, 1, 4, 2>>, <<3, 2, 1, 4>>, <<3, 2, 4, 1>>, <<3, 4, 1, 2>>, <<3, 4, 2, 1>>, <<4, 1, 2, 3>>, <<4, 1, 3, 2>>, <<4, 2, 1, 3>>, <<4, 2, 3, 1>>, <<4, 3, 1, 2>>, <<4, 3, 2, 1>>>> >>
+LASignTable ==
+    << <<1>>,
+       <<1, -1>>,
+       <<1, -1, -1, 1, 1, -1>>,
+       <<1, -1, -1, 1, 1, -1, -1, 1, 1, -1, -1, 1, 1, -1, -1, 1, 1, -1, -1, 1, 1, -1, -1, 1>> >>
+LASkip ==
+    << <<<<>>>>,
+       <<<<2>>, <<1>>>>,
+       <<<<2, 3>>, <<1, 3>>, <<1, 2>>>>,
+       <<<<2, 3, 4>>, <<1, 3, 4>>, <<1, 2, 4>>, <<1, 2, 3>>>>,
+       <<<<2, 3, 4, 5>>, <<1, 3, 4, 5>>, <<1, 2, 4, 5>>, <<1, 2, 3, 5>>, <<1, 2, 3, 4>>>> >>
+LAIota == << <<1>>, <<1, 2>>, <<1, 2, 3>>, <<1, 2, 3, 4>>, <<1, 2, 3, 4, 5>> >>
 LALeibniz(m) ==
-    LET n == m.c ps == LAPermTable[n] sg == LASignTable[n]
-    IN QSum([k \in 1..Len(ps) |-> LET t == LAProd([i \in 1..n |-> MAt(m, i, ps[k][i])])
-                                  IN IF sg[k] = 1 THEN t ELSE QNeg(t)])
-LADet(m) == MDet(m)                                               \* Laplace along the first row (LinQ); = LALeibniz (MC_C10)
-\* permanent of |m|: the sum of the absolute values of the Leibniz terms (the "largest intermediate" scale of a determinant)
-LAAbs(m) == Mat(m.c, m.r, [i \in 1..Len(m.e) |-> QAbs(m.e[i])])
-RECURSIVE LAPerm(_)
-LAPerm(m) == IF m.c = 1 THEN m.e[1] ELSE QSum([col \in 1..m.c |-> QMul(MAt(m, col, 1), LAPerm(MMinor(m, col, 1)))])
-LAPermAdj(m) == IF m.c = 1 THEN Mat(1, 1, <<QOne>>) ELSE MFromFn(m.c, m.r, LAMBDA c, r : LAPerm(MMinor(m, r, c)))
+    LALet1(m, LAMBDA x :
+      LET n == x.c ps == LAPermTable[n] sg == LASignTable[n]
+      IN QSum(LAForceSeq([k \in 1..Len(ps) |-> LET t == LAProd([i \in 1..n |-> MAt(x, i, ps[k][i])])
+                                               IN IF sg[k] = 1 THEN t ELSE QNeg(t)])))
+LADet(m) == LALet1(m, LAMBDA x : MDet(x))                         \* Laplace along the first row (LinQ); = LALeibniz (MC_C10)
+\* permanent: the same sum without the signs; of |m| it is the sum of the absolute values of the Leibniz terms
+\* (the "largest intermediate" scale of a determinant)
+RECURSIVE LAPermRec(_)
+LAPermRec(m) == IF m.c = 1 THEN m.e[1] ELSE QSum([col \in 1..m.c |-> QMul(MAt(m, col, 1), LAPermRec(MMinor(m, col, 1)))])
+LAPerm(m) == LALet1(m, LAMBDA x : LAPermRec(x))
+LAPermAdj(m) == LALet1(m, LAMBDA x : IF x.c = 1 THEN Mat(1, 1, <<QOne>>)
+                                      ELSE LAForce(MFromFn(x.c, x.r, LAMBDA c, r : LAPermRec(MMinor(x, r, c)))))
 
 \* ---------------------------------------------------------------- inverse and its variants
-LAInverse(m) == MInv(m)                                           \* adj(m) / det(m),  det # 0
-LAInverseTranspose(m) == MTranspose(MInv(m))
-LAAdjugate(m) == MAdj(m)
-LACond(m, inv) == QMul(MNormInf(m), MNormInf(inv))                \* infinity-norm condition number given the inverse
+LAAdjugate(m) == LALet1(m, LAMBDA x : LAForce(MAdj(x)))            \* adj[c][r] = (-1)^(c+r) det(m without column r and row c)
+LAInverseFrom(adj, det) == LAScale(adj, QInv(det))
+LAInverse(m) == LALet1(m, LAMBDA x : LAInverseFrom(LAAdjugate(x), MDet(x)))       \* adj(m) / det(m),  det # 0  (= LinQ!MInv)
+LAInverseTranspose(m) == LATranspose(LAInverse(m))
+LACond(m, inv) == QMul(LANormInf(m), LANormInf(inv))              \* infinity-norm condition number given the inverse
 \* affine matrices: last row (0, ..., 0, 1); [A t; 0 1]^-1 = [A^-1  -A^-1 t; 0 1]
-LAIsAffine(m) == m.c = m.r /\ \A c \in 1..m.c : QEq(MAt(m, c, m.r), IF c = m.c THEN QOne ELSE QZero)
-LALinearPart(m) == MFromFn(m.c - 1, m.r - 1, LAMBDA c, r : MAt(m, c, r))
-LATranslation(m) == [r \in 1..(m.r - 1) |-> MAt(m, m.c, r)]
-LAAffineFrom(lin, t) == LET n == lin.c + 1 IN
-    MFromFn(n, n, LAMBDA c, r : IF r = n THEN (IF c = n THEN QOne ELSE QZero) ELSE IF c = n THEN t[r] ELSE MAt(lin, c, r))
-LAAffineInverseWith(linInv, t) == LAAffineFrom(linInv, VNeg(MVec(linInv, t)))
-LAAffineInverse(m) == LAAffineInverseWith(MInv(LALinearPart(m)), LATranslation(m))
+LAIsAffine(m) == \A x \in {m} : x.c = x.r /\ \A c \in 1..x.c : QEq(MAt(x, c, x.r), IF c = x.c THEN QOne ELSE QZero)
+LALinearPart(m) == LALet1(m, LAMBDA x : LAForce(MFromFn(x.c - 1, x.r - 1, LAMBDA c, r : MAt(x, c, r))))
+LATranslation(m) == LALet1(m, LAMBDA x : LAForceSeq([r \in 1..(x.r - 1) |-> MAt(x, x.c, r)]))
+LAAffineFrom(lin, t) == LALet2(lin, t, LAMBDA x, y : LET n == x.c + 1 IN
+    LAForce(MFromFn(n, n, LAMBDA c, r : IF r = n THEN (IF c = n THEN QOne ELSE QZero) ELSE IF c = n THEN y[r] ELSE MAt(x, c, r))))
+LAAffineInverseWith(linInv, t) == LALet2(linInv, t, LAMBDA x, y : LAAffineFrom(x, LAForceSeq(VNeg(LAMulVec(x, y)))))
+LAAffineInverse(m) == LALet1(m, LAMBDA x : LAAffineInverseWith(LAInverse(LALinearPart(x)), LATranslation(x)))
 \* operator/ : matrices and vectors multiply by the inverse; scalars divide component-wise
-LADivMM(a, b) == MMul(a, MInv(b))                                 \* a / b = a * inverse(b)
-LADivMV(m, v) == MVec(MInv(m), v)                                 \* m / v = inverse(m) * v
-LADivVM(v, m) == VMat(v, MInv(m))                                 \* v / m = v * inverse(m)
+LADivMM(a, b) == LAMul(a, LAInverse(b))                           \* a / b = a * inverse(b)
+LADivMV(m, v) == LAMulVec(LAInverse(m), v)                        \* m / v = inverse(m) * v
+LADivVM(v, m) == LAVecMul(v, LAInverse(m))                        \* v / m = v * inverse(m)
 
 \* ---------------------------------------------------------------- builders, flips
-LADiagonal(C, R, v) == MFromFn(C, R, LAMBDA c, r : IF c = r THEN (IF c <= Len(v) THEN v[c] ELSE QOne) ELSE QZero)
-LAFlipLR(m) == MFromFn(m.c, m.r, LAMBDA c, r : MAt(m, m.c + 1 - c, r))          \* columns right <-> left
-LAFlipUD(m) == MFromFn(m.c, m.r, LAMBDA c, r : MAt(m, c, m.r + 1 - r))          \* rows up <-> down
+LADiagonal(C, R, v) == LALet1(v, LAMBDA x : LAForce(MFromFn(C, R, LAMBDA c, r : IF c = r THEN (IF c <= Len(x) THEN x[c] ELSE QOne) ELSE QZero)))
+LAFlipLR(m) == LALet1(m, LAMBDA x : LAForce(MFromFn(x.c, x.r, LAMBDA c, r : MAt(x, x.c + 1 - c, r))))          \* columns right <-> left
+LAFlipUD(m) == LALet1(m, LAMBDA x : LAForce(MFromFn(x.c, x.r, LAMBDA c, r : MAt(x, c, x.r + 1 - r))))          \* rows up <-> down
 
 \* ---------------------------------------------------------------- integer / unimodular
 LAQIsInt(q) == q.q = <<1>>
-LAIsIntSeq(s, bound) == \A i \in 1..Len(s) : LAQIsInt(s[i]) /\ QLe(QAbs(s[i]), QI(bound))
-LAIsUnimodular(m) == m.c = m.r /\ (\A i \in 1..Len(m.e) : LAQIsInt(m.e[i])) /\ QEq(QAbs(MDet(m)), QOne)
-LAIsSignedPerm(m) ==
-    /\ \A i \in 1..Len(m.e) : QIsZero(m.e[i]) \/ QEq(QAbs(m.e[i]), QOne)
-    /\ \A c \in 1..m.c : Cardinality({r \in 1..m.r : ~QIsZero(MAt(m, c, r))}) = 1
-    /\ \A r \in 1..m.r : Cardinality({c \in 1..m.c : ~QIsZero(MAt(m, c, r))}) = 1
+LAIsIntM(m) == \A x \in {m} : \A i \in 1..Len(x.e) : LAQIsInt(x.e[i])
+LAIsUnimodular(m) == \A x \in {m} : x.c = x.r /\ LAIsIntM(x) /\ QEq(QAbs(MDet(x)), QOne)
+LAIsSignedPerm(m) == \A x \in {m} :
+    /\ \A i \in 1..Len(x.e) : QIsZero(x.e[i]) \/ QEq(QAbs(x.e[i]), QOne)
+    /\ \A c \in 1..x.c : Cardinality({r \in 1..x.r : ~QIsZero(MAt(x, c, r))}) = 1
+    /\ \A r \in 1..x.r : Cardinality({c \in 1..x.c : ~QIsZero(MAt(x, c, r))}) = 1
 
 \* ---------------------------------------------------------------- the same algebra on small native integers
 \* For matrices of small integers (the unimodular inputs of the property, where "all of these are
 \* exact") every quantity is a small integer, and the definitions are repeated on TLC's native
-\* integers (same Laplace / adjugate shape as LinQ's MDet / MAdj; MC_C10 checks on its states that
-\* both layers agree).  An n x n integer matrix is a tuple of n*n integers, column-major.
+\* integers.  An n x n integer matrix is a tuple of n*n integers, column-major.  The determinant is the
+\* Leibniz sum over the constant permutation tables, a cofactor the same sum over the permutations of
+\* n-1 on the remaining rows / columns; MC_C10 checks on its states that this layer agrees with LinQ
+\* (Laplace recursion on rationals).
 LIAt(e, n, c, r) == e[(c - 1) * n + r]
-LIMinor(e, n, c0, r0) ==
-    [k \in 1..((n - 1) * (n - 1)) |-> LET c == ((k - 1) \div (n - 1)) + 1 r == ((k - 1) % (n - 1)) + 1
-                                      IN LIAt(e, n, IF c >= c0 THEN c + 1 ELSE c, IF r >= r0 THEN r + 1 ELSE r)]
 RECURSIVE LISumFrom(_, _)
 LISumFrom(t, i) == IF i > Len(t) THEN 0 ELSE t[i] + LISumFrom(t, i + 1)
-LISum(t) == LISumFrom(t, 1)
-RECURSIVE LIDet(_, _)
-LIDet(e, n) == IF n = 1 THEN e[1]
-               ELSE LISum([c \in 1..n |-> (IF c % 2 = 1 THEN 1 ELSE -1) * LIAt(e, n, c, 1) * LIDet(LIMinor(e, n, c, 1), n - 1)])
-LIAdj(e, n) == IF n = 1 THEN <<1>>
-               ELSE [k \in 1..(n * n) |-> LET c == ((k - 1) \div n) + 1 r == ((k - 1) % n) + 1
-                                          IN (IF (c + r) % 2 = 0 THEN 1 ELSE -1) * LIDet(LIMinor(e, n, r, c), n - 1)]
-LITranspose(e, n) == [k \in 1..(n * n) |-> LIAt(e, n, ((k - 1) % n) + 1, ((k - 1) \div n) + 1)]
-LIMul(a, b, n) == [k \in 1..(n * n) |-> LET c == ((k - 1) \div n) + 1 r == ((k - 1) % n) + 1
-                                        IN LISum([j \in 1..n |-> LIAt(a, n, j, r) * LIAt(b, n, c, j)])]          \* a * b
-LIMulVec(a, v, n) == [r \in 1..n |-> LISum([j \in 1..n |-> LIAt(a, n, j, r) * v[j]])]                        \* a * v
-LIVecMul(v, a, n) == [c \in 1..n |-> LISum([j \in 1..n |-> v[j] * LIAt(a, n, c, j)])]                        \* v * a
-LIScale(e, k) == [i \in 1..Len(e) |-> k * e[i]]
-LIIdentity(n) == [k \in 1..(n * n) |-> IF ((k - 1) \div n) = ((k - 1) % n) THEN 1 ELSE 0]
-LIInverseUni(e, n) == LIScale(LIAdj(e, n), LIDet(e, n))           \* inverse of a unimodular matrix: adj / det = det * adj (det = +-1)
-LIIsAffine(e, n) == \A c \in 1..n : LIAt(e, n, c, n) = (IF c = n THEN 1 ELSE 0)
+LISum(t) == LALet1(LAForceSeq(t), LAMBDA x : LISumFrom(x, 1))
+\* determinant of the m x m submatrix with columns cs and rows rs of the n x n matrix e  (e, cs, rs: explicit tuples)
+LIDetSel(e, n, cs, rs, m) ==
+    IF m = 0 THEN 1 ELSE
+    LET ps == LAPermTable[m] sg == LASignTable[m] IN
+    LISum([k \in 1..Len(ps) |->
+        LET p == ps[k] IN
+        sg[k] * (IF m = 1 THEN e[(cs[1] - 1) * n + rs[p[1]]]
+                 ELSE IF m = 2 THEN e[(cs[1] - 1) * n + rs[p[1]]] * e[(cs[2] - 1) * n + rs[p[2]]]
+                 ELSE IF m = 3 THEN e[(cs[1] - 1) * n + rs[p[1]]] * e[(cs[2] - 1) * n + rs[p[2]]] * e[(cs[3] - 1) * n + rs[p[3]]]
+                 ELSE e[(cs[1] - 1) * n + rs[p[1]]] * e[(cs[2] - 1) * n + rs[p[2]]] * e[(cs[3] - 1) * n + rs[p[3]]] * e[(cs[4] - 1) * n + rs[p[4]]])])
+LIDet(e, n) == LALet1(e, LAMBDA x : LIDetSel(x, n, LAIota[n], LAIota[n], n))                 \* n <= 4
+\* adjugate: adj[c][r] = (-1)^(c+r) det(e without column r and row c)    (so that e * adj = det * I; same convention as LinQ!MAdj)
+LIAdj(e, n) == LALet1(e, LAMBDA x :
+                 LAForceSeq([k \in 1..(n * n) |-> LET c == ((k - 1) \div n) + 1 r == ((k - 1) % n) + 1
+                                                  IN (IF (c + r) % 2 = 0 THEN 1 ELSE -1) * LIDetSel(x, n, LASkip[n][r], LASkip[n][c], n - 1)]))
+LITranspose(e, n) == LALet1(e, LAMBDA x : LAForceSeq([k \in 1..(n * n) |-> LIAt(x, n, ((k - 1) % n) + 1, ((k - 1) \div n) + 1)]))
+LIMul(a, b, n) == LALet2(a, b, LAMBDA x, y :                                                   \* a * b
+                    LAForceSeq([k \in 1..(n * n) |-> LET c == ((k - 1) \div n) + 1 r == ((k - 1) % n) + 1
+                                                     IN LISum([j \in 1..n |-> LIAt(x, n, j, r) * LIAt(y, n, c, j)])]))
+LIMulVec(a, v, n) == LALet2(a, v, LAMBDA x, y : LAForceSeq([r \in 1..n |-> LISum([j \in 1..n |-> LIAt(x, n, j, r) * y[j]])]))     \* a * v
+LIVecMul(v, a, n) == LALet2(v, a, LAMBDA y, x : LAForceSeq([c \in 1..n |-> LISum([j \in 1..n |-> y[j] * LIAt(x, n, c, j)])]))     \* v * a
+LIScale(e, k) == LALet2(e, k, LAMBDA x, s : LAForceSeq([i \in 1..Len(x) |-> s * x[i]]))
+LIIdentity(n) == LAForceSeq([k \in 1..(n * n) |-> IF ((k - 1) \div n) = ((k - 1) % n) THEN 1 ELSE 0])
+LIInverseUni(e, n) == LALet1(e, LAMBDA x : LIScale(LIAdj(x, n), LIDet(x, n)))    \* inverse of a unimodular matrix: adj / det = det * adj (det = +-1)
+LIIsAffine(e, n) == \A x \in {e} : \A c \in 1..n : LIAt(x, n, c, n) = (IF c = n THEN 1 ELSE 0)
 LIAffineFrom(lin, t, n) ==      \* n = size of lin; result (n+1) x (n+1)
-    [k \in 1..((n + 1) * (n + 1)) |-> LET c == ((k - 1) \div (n + 1)) + 1 r == ((k - 1) % (n + 1)) + 1
-                                      IN IF r = n + 1 THEN (IF c = n + 1 THEN 1 ELSE 0) ELSE IF c = n + 1 THEN t[r] ELSE LIAt(lin, n, c, r)]
-LILinearPart(e, n) == [k \in 1..((n - 1) * (n - 1)) |-> LIAt(e, n, ((k - 1) \div (n - 1)) + 1, ((k - 1) % (n - 1)) + 1)]
-LITranslation(e, n) == [r \in 1..(n - 1) |-> LIAt(e, n, n, r)]
+    LALet2(lin, t, LAMBDA x, y :
+      LAForceSeq([k \in 1..((n + 1) * (n + 1)) |-> LET c == ((k - 1) \div (n + 1)) + 1 r == ((k - 1) % (n + 1)) + 1
+                                                   IN IF r = n + 1 THEN (IF c = n + 1 THEN 1 ELSE 0) ELSE IF c = n + 1 THEN y[r] ELSE LIAt(x, n, c, r)]))
+LILinearPart(e, n) == LALet1(e, LAMBDA x : LAForceSeq([k \in 1..((n - 1) * (n - 1)) |-> LIAt(x, n, ((k - 1) \div (n - 1)) + 1, ((k - 1) % (n - 1)) + 1)]))
+LITranslation(e, n) == LALet1(e, LAMBDA x : LAForceSeq([r \in 1..(n - 1) |-> LIAt(x, n, n, r)]))
 LIAffineInverseUni(e, n) ==     \* e affine n x n with unimodular linear part
-    LET li == LIInverseUni(LILinearPart(e, n), n - 1) IN LIAffineFrom(li, LIScale(LIMulVec(li, LITranslation(e, n), n - 1), -1), n - 1)
-LIToQ(e, n) == Mat(n, n, [i \in 1..(n * n) |-> QI(e[i])])
-LIVToQ(v) == [i \in 1..Len(v) |-> QI(v[i])]
+    LALet1(e, LAMBDA x : LALet1(LIInverseUni(LILinearPart(x, n), n - 1), LAMBDA li :
+        LIAffineFrom(li, LIScale(LIMulVec(li, LITranslation(x, n), n - 1), -1), n - 1)))
+LIToQ(e, n) == LALet1(e, LAMBDA x : Mat(n, n, LAForceSeq([i \in 1..(n * n) |-> QI(x[i])])))
+LIVToQ(v) == LALet1(v, LAMBDA x : LAForceSeq([i \in 1..Len(x) |-> QI(x[i])]))
 
 \* decoding of float / double bit patterns that hold an integer of magnitude < 2^11 (limbs least significant first);
 \* anything else (fractions, larger values, NaN, infinities, denormals) gives LINotInt
@@ -141,42 +203,42 @@ LISmallIntW(w) ==
         ELSE IF ex < 1023 \/ ex > 1033 \/ w[2] # 0 \/ w[1] # 0 THEN LINotInt
         ELSE LET sh == 1043 - ex full == 1048576 + man IN
              IF full % LIPow2(sh) # 0 THEN LINotInt ELSE (IF sg = 1 THEN -1 ELSE 1) * (full \div LIPow2(sh))
-LISmallInts(ws) == [i \in 1..Len(ws) |-> LISmallIntW(ws[i])]
-LIAllSmall(t, bound) == \A i \in 1..Len(t) : t[i] <= bound /\ -t[i] <= bound
+LISmallInts(ws) == LALet1(ws, LAMBDA x : LAForceSeq([i \in 1..Len(x) |-> LISmallIntW(x[i])]))
+LIAllSmall(t, bound) == \A x \in {t} : \A i \in 1..Len(x) : x[i] <= bound /\ -x[i] <= bound
 
 \* ---------------------------------------------------------------- gtx/matrix_query, three-valued
 \* "T" / "F" where the documented comparison is decided with a margin, "U" inside the guard band
 \* (there the rounding of length() / dot() may legitimately tip the comparison either way)
 LALe3(x, t, slack) == IF QLe(x, QSub(t, slack)) THEN "T" ELSE IF QLt(QAdd(t, slack), x) THEN "F" ELSE "U"
 LAAll3(S) == IF "F" \in S THEN "F" ELSE IF "U" \in S THEN "U" ELSE "T"
-LANot3(x) == IF x = "T" THEN "F" ELSE IF x = "F" THEN "T" ELSE "U"
 \* vector predicates of gtx/vector_query: isNull: length(v) <= eps ; isNormalized: |length(v) - 1| <= 2 eps
-LAIsNullV(v, eps, rel) == LET n2 == VNorm2(v) e2 == QMul(eps, eps) IN LALe3(n2, e2, QMul(rel, QMax(n2, e2)))
+LAIsNullV(v, eps, rel) == LALet2(VNorm2(v), QMul(eps, eps), LAMBDA n2, e2 : LALe3(n2, e2, QMul(rel, QMax(n2, e2))))
 LAIsNormV(v, eps, rel) ==
-    LET n2 == VNorm2(v) two == QMulInt(eps, 2)
-        hi == QMul(QAdd(QOne, two), QAdd(QOne, two))
-        lo == QMul(QSub(QOne, two), QSub(QOne, two))
-        sl == QMul(rel, QMax(n2, hi))
-    IN LAAll3({LALe3(n2, hi, sl),
-               IF QLe(QOne, two) \/ QLe(QAdd(lo, sl), n2) THEN "T" ELSE IF QLt(n2, QSub(lo, sl)) THEN "F" ELSE "U"})
+    LALet2(VNorm2(v), QMulInt(eps, 2), LAMBDA n2, two :
+      LET hi == QMul(QAdd(QOne, two), QAdd(QOne, two))
+          lo == QMul(QSub(QOne, two), QSub(QOne, two))
+          sl == QMul(rel, QMax(n2, hi))
+      IN LAAll3({LALe3(n2, hi, sl),
+                 IF QLe(QOne, two) \/ QLe(QAdd(lo, sl), n2) THEN "T" ELSE IF QLt(n2, QSub(lo, sl)) THEN "F" ELSE "U"}))
 LAAbsLe3(x, eps, rel, scale) == LALe3(QAbs(x), eps, QMul(rel, QMax(scale, eps)))
-LAIsNullM(m, eps, rel) == LAAll3({LAIsNullV(MCol(m, c), eps, rel) : c \in 1..m.c})
-LAIsIdentityM(m, eps, rel) ==
-    LAAll3({LAAbsLe3(QSub(MAt(m, c, r), IF c = r THEN QOne ELSE QZero), eps, rel, QAbs(MAt(m, c, r))) : c \in 1..m.c, r \in 1..m.r})
-LAIsNormalizedM(m, eps, rel) ==
-    LAAll3({LAIsNormV(MCol(m, c), eps, rel) : c \in 1..m.c} \cup {LAIsNormV(MRow(m, r), eps, rel) : r \in 1..m.r})
+LAIsNullM(m, eps, rel) == LALet1(m, LAMBDA x : LAAll3({LAIsNullV(MCol(x, c), eps, rel) : c \in 1..x.c}))
+LAIsIdentityM(m, eps, rel) == LALet1(m, LAMBDA x :
+    LAAll3({LAAbsLe3(QSub(MAt(x, c, r), IF c = r THEN QOne ELSE QZero), eps, rel, QAbs(MAt(x, c, r))) : c \in 1..x.c, r \in 1..x.r}))
+LAIsNormalizedM(m, eps, rel) == LALet1(m, LAMBDA x :
+    LAAll3({LAIsNormV(MCol(x, c), eps, rel) : c \in 1..x.c} \cup {LAIsNormV(MRow(x, r), eps, rel) : r \in 1..x.r}))
 LAOrthoPairs(vs, eps, rel) ==
     LAAll3({LAIsNormV(vs[i], eps, rel) : i \in 1..Len(vs)}
            \cup {LAAbsLe3(VDot(vs[ij[1]], vs[ij[2]]), eps, rel, VDotAbs(vs[ij[1]], vs[ij[2]])) :
                     ij \in {p \in (1..Len(vs)) \X (1..Len(vs)) : p[1] < p[2]}})
-LAIsOrthogonalM(m, eps, rel) ==
-    LAAll3({LAOrthoPairs([c \in 1..m.c |-> MCol(m, c)], eps, rel), LAOrthoPairs([r \in 1..m.r |-> MRow(m, r)], eps, rel)})
+LAIsOrthogonalM(m, eps, rel) == LALet1(m, LAMBDA x :
+    LAAll3({LAOrthoPairs(LAForceSeq([c \in 1..x.c |-> LAForceSeq(MCol(x, c))]), eps, rel),
+            LAOrthoPairs(LAForceSeq([r \in 1..x.r |-> LAForceSeq(MRow(x, r))]), eps, rel)}))
 
 \* ---------------------------------------------------------------- QR / RQ postconditions
-LAIsUpperTri(r) == \A c \in 1..r.c, w \in 1..r.r : w > c => QIsZero(MAt(r, c, w))
+LAIsUpperTri(m) == \A x \in {m} : \A c \in 1..x.c, w \in 1..x.r : w > c => QIsZero(MAt(x, c, w))
 \* RQ: "the diagonal is seen as starting in the lower-right corner": entry (c, w) is below it when w - r.r > c - r.c
-LAIsUpperTriLR(r) == \A c \in 1..r.c, w \in 1..r.r : (w + r.c > c + r.r) => QIsZero(MAt(r, c, w))
-LAColOrthoDefect(q) == MMaxAbs(MSub(LAMMulD(MTranspose(q), q), MIdentity(q.c)))      \* max |q^T q - I|
-LARowOrthoDefect(q) == MMaxAbs(MSub(LAMMulD(q, MTranspose(q)), MIdentity(q.r)))      \* max |q q^T - I|
-LAResidual(a, b, m) == MMaxAbs(MSub(LAMMulD(a, b), m))                                \* max |a b - m|
+LAIsUpperTriLR(m) == \A x \in {m} : \A c \in 1..x.c, w \in 1..x.r : (w + x.c > c + x.r) => QIsZero(MAt(x, c, w))
+LAColOrthoDefect(q) == LALet1(q, LAMBDA x : LAMaxAbs(LASub(LAMMulD(LATranspose(x), x), MIdentity(x.c))))      \* max |q^T q - I|
+LARowOrthoDefect(q) == LALet1(q, LAMBDA x : LAMaxAbs(LASub(LAMMulD(x, LATranspose(x)), MIdentity(x.r))))      \* max |q q^T - I|
+LAResidual(a, b, m) == LAMaxAbs(LASub(LAMMulD(a, b), m))                                                       \* max |a b - m|
 =============================================================================
